@@ -18,7 +18,10 @@ class BufModel:
         if not isinstance(length, int):
             raise Unknown('append_bits with a non-constant width')
         self.appends.append((val, length))
-        self.bits.extend([('b', val)] * length)
+        if isinstance(val, int) and not isinstance(val, bool):
+            self.bits.extend((val >> i) & 1 for i in reversed(range(length)))
+        else:
+            self.bits.extend([('b', val)] * length)
 
     def extend(self, it):
         items = list(it)
